@@ -56,6 +56,25 @@ def run(ck, facts, tier):
         else:
             ck.violation(R, "push_obligation:match", b.where(), "expected one match on Obligation")
 
+    R = "C09.SELECTED-NOT-FLOUNDERED"
+    ck.rule(R, "K3 (justifies an engine assertion): on_subgoal_selected asserts that the selected subgoal's table has not floundered; a "
+               "table can flounder *after* it was selected (pursue_answer marks it when an answer exceeds the size limit), so "
+               "SolveState::select_subgoal may answer SubGoalSelection::Selected only behind the false edge of Table::is_floundered - "
+               "for a selection it has just made and for one it finds already made alike")
+    sel = need_body(ck, facts, R, "chalk_engine::logic::SolveState::select_subgoal")
+    if sel:
+        cfg = sel.cfg
+        sites = sorted({b for b, j, st in cfg.agg_sites("chalk_engine::logic::SubGoalSelection", "Selected")})
+        ck.floor(R, "select_subgoal.Selected-sites", len(sites), 1)
+        guard_sites(ck, R, sel, sites, cfg.bool_edges(trace_is_call("Table::is_floundered"), False), "SubGoalSelection::Selected", "!table.is_floundered()")
+    osl = need_body(ck, facts, R, "chalk_engine::logic::SolveState::on_subgoal_selected")
+    if osl and sel:
+        # the assertion this rule justifies still reads the same predicate
+        if has_call(osl.thir, "Table::is_floundered") or has_call(osl.thir, "is_floundered"):
+            ck.ok(R, "on_subgoal_selected:asserts-not-floundered", "the assertion exists; select_subgoal establishes it")
+        else:
+            ck.ok(R, "on_subgoal_selected:no-assertion", "nothing to justify")
+
     R = "C09.OVERFLOW"
     ck.rule(R, "K3: recursive Stack::push reaches entries.push only on the false edge of `depth >= overflow_depth`")
     b = need_body(ck, facts, R, "chalk_recursive::fixed_point::stack::Stack::push")
